@@ -91,7 +91,9 @@ def step (s : Unit) : List String → Unit × String
     | some k, some x => (s, showOpt (plainToken k x)) | _, _ => (s, "bad-op")
   | "plain" :: k :: a :: rest => match kind? k, cps? a, pairs? rest with
     | some k, some x, some ps =>
-      (s, match plainChoice k x ps with | some t => "plain " ++ showCps t | none => "quoted")
+      (s, match pinnedExp k (ps.map (·.1)) with
+          | some t => "plain " ++ showCps t
+          | none => match plainChoice k x ps with | some t => "plain " ++ showCps t | none => "quoted")
     | _, _, _ => (s, "bad-op")
   | ["hext", "i", a] => match cps? a with
     | some x => (s, showRow (hextObj (.iri x))) | none => (s, "bad-op")
